@@ -444,12 +444,24 @@ func propC18(t *rapid.T) {
 			return true
 		})
 		wantHandled := zl >= th
-		if got := n.h.Enabled(context.Background(), lvl); got != wantHandled {
+		// slog.Handler: "Canceling the context should not affect record processing"
+		ctx := context.Background()
+		switch rapid.IntRange(0, 5).Draw(t, "contextState") {
+		case 0:
+			c, cancel := context.WithCancel(context.Background())
+			cancel()
+			ctx = c
+		case 1:
+			c, cancel := context.WithDeadline(context.Background(), time.Unix(0, 0))
+			defer cancel()
+			ctx = c
+		}
+		if got := n.h.Enabled(ctx, lvl); got != wantHandled {
 			t.Fatalf("handler #%d Enabled(%v)=%v but the core enables mapped level %v: %v", n.id, lvl, got, zl, wantHandled)
 		}
 		before := len(sink.writes)
 		shapeBefore := c18Shapes(actual)
-		if err := n.h.Handle(context.Background(), r); err != nil {
+		if err := n.h.Handle(ctx, r); err != nil {
 			t.Fatalf("Handle: %v", err)
 		}
 		if after := c18Shapes(actual); after != shapeBefore {
